@@ -239,11 +239,14 @@ fn optstate_ops(idx: usize, depth: usize) {
     let b = any_v(Dom::I8, true);
     let x = any_v(Dom::I8, true);
     let mut st = OptState::new(size);
+    // Buffers of the five stacks are LOCAL arrays handed to Vec::from_raw_parts (never freed:
+    // everything is forgotten at the end): the symbolic executor keeps lengths, capacities and
+    // contents of objects it knows statically, which it does not for heap allocations.
+    let mut bufs: [[std::mem::MaybeUninit<Num>; 4]; 5] = unsafe { std::mem::MaybeUninit::uninit().assume_init() };
     let mut i = 0;
     while i < size {
-        // fresh buffers with room for every push of this harness (growing a Vec that lives behind
-        // a heap pointer is beyond the symbolic executor)
-        let old = std::mem::replace(st.get_stack(i), Vec::with_capacity(4));
+        let v = unsafe { Vec::from_raw_parts(bufs[i].as_mut_ptr() as *mut Num, 0, 4) };
+        let old = std::mem::replace(st.get_stack(i), v);
         std::mem::forget(old);
         i += 1;
     }
@@ -390,4 +393,93 @@ pub fn budget_label() {
 #[cfg_attr(kani, kani::stub(std::fmt::format, fmt_model))]
 pub fn budget_white() {
     budget_check(true);
+}
+
+// ===========================================================================
+// C02: one pre-executed command that LOOPS through an earlier command and writes to BOTH
+// streams before it is kept: the forwarded stdout and stderr must each equal the definition's.
+//   loc 0 (pre-loaded) A: 항 -> stdout, with a heart registered at loc 0
+//   loc 1 (appended)   B: 항 -> stderr, area [heart]?[_]: popped < 5 => jump to the label (loc 0)
+// Stack 3 holds five symbolic digits/NaN; both branch decisions are symbolic.
+// ===========================================================================
+fn two_stream_check() {
+    let ac = 5usize;
+    let vals = [any_v(Dom::Digit, false), any_v(Dom::Digit, true), any_v(Dom::Digit, true), any_v(Dom::Digit, true), any_v(Dom::Digit, true)];
+    let (sa_heart, ra_heart) = mk_area(1); // heart type 4
+    // B's area: [h4] ? [_]
+    let sb = SArea { nodes: [(0, 1, NIL), (4, NIL, NIL), (0, NIL, NIL), (0, NIL, NIL), (0, NIL, NIL), (0, NIL, NIL), (0, NIL, NIL)], root: 0 };
+    let rb = Area::Val { type_: 0, left: Box::new(Area::new(4)), right: Box::new(Area::Nil) };
+    let lbl = ((ac as u128) << 4) + 4;
+    let a_spec = SCode { kind: 1, h: 1, d: 1, area: sa_heart, ac };
+    let b_spec = SCode { kind: 1, h: 1, d: 2, area: sb, ac };
+    // definition
+    let mut s = SState {
+        st: [[NAN; DEPTH]; NSTK], len: [0, 0, 0, 5, 0, 0], cur: 3, out: [0; OBUF], olen: 0, err: [0; OBUF], elen: 0,
+        pts: [(lbl, 0), (0, 0), (0, 0)], npts: 1, latest: None, line: [0; 4], line_len: 0, line_avail: false, reads: 0,
+    };
+    let mut i = 0;
+    while i < 5 {
+        s.st[3][i] = vals[i];
+        i += 1;
+    }
+    let mut loc = 1usize;
+    let mut steps = 0;
+    let mut ok = true;
+    while loc <= 1 && steps < 8 {
+        let c = if loc == 0 { &a_spec } else { &b_spec };
+        match spec_step(&mut s, c, loc) {
+            End::Next(n) => loc = n,
+            _ => {
+                ok = false;
+                break;
+            }
+        }
+        steps += 1;
+    }
+    assume(ok && loc > 1);
+    // repository
+    let mut st3 = Vec::with_capacity(DEPTH);
+    let mut i = 0;
+    while i < 5 {
+        st3.push(num_of_v(vals[i]));
+        i += 1;
+    }
+    let filler = || OptCode::new(0, 1, 1, 1, Area::Nil);
+    let l = LState {
+        st: [Vec::new(), Vec::new(), Vec::new(), st3, Vec::new(), Vec::new()],
+        code: [OptCode::new(1, 1, 1, ac, ra_heart), filler(), filler(), filler()],
+        ncode: 1, cur: 3, latest: None, pts: [(lbl, 0), (0, 0), (0, 0)], npts: 1,
+    };
+    let cmd = OptCode::new(1, 1, 2, ac, rb);
+    unsafe {
+        EXIT_FORBIDDEN = true;
+    }
+    let mut rd = LineReader { line: Vec::new(), avail: false, reads: 0, forbidden: true };
+    let mut out = CapW::new(false);
+    let mut err = CapW::new(true);
+    match opt_execute(&mut rd, &mut out, &mut err, l, &cmd) {
+        Ok((post, true)) => {
+            assert!(same_output(&out, &s.out, s.olen), "forwarded standard output differs from the definition");
+            assert!(same_output(&err, &s.err, s.elen), "forwarded standard error differs from the definition");
+            assert!(post.ncode == 2 && post.cur == 3 && post.latest == s.latest);
+            assert!(post.st[3].len() == s.len[3]);
+            std::mem::forget(post);
+        }
+        _ => assert!(false, "a terminating input-free loop was not pre-executed"),
+    }
+    vcover!();
+    std::mem::forget((rd, out, err, cmd));
+}
+// @h prop=C02 unwind=10 rec=3 cutfmt=num uw=same_output.0:25;exit_model.0:25;exit.0:25;push.0:17;write.0:17 timeout=7200 mem=24 tier=thorough kind=stretch what=loop_through_an_earlier_command_writing_to_BOTH_streams:forwarded_stdout_and_stderr_equal_the_definition
+#[cfg_attr(kani, kani::proof)]
+#[cfg_attr(kani, kani::stub(crate::number::num::Num::add, m_num_add))]
+#[cfg_attr(kani, kani::stub(crate::number::num::Num::mul, m_num_mul))]
+#[cfg_attr(kani, kani::stub(crate::number::big_number::BigNum::mul, m_mul))]
+#[cfg_attr(kani, kani::stub(crate::number::big_number::BigNum::div, m_div))]
+#[cfg_attr(kani, kani::stub(crate::number::big_number::BigNum::new, m_new1))]
+#[cfg_attr(kani, kani::stub(crate::number::big_number::BigNum::to_string_base, m_to_string_digit))]
+#[cfg_attr(kani, kani::stub(std::process::exit, exit_model))]
+#[cfg_attr(kani, kani::stub(std::fmt::format, fmt_model))]
+pub fn o_two_streams() {
+    two_stream_check();
 }
